@@ -80,5 +80,10 @@ CHECKS = {
   "note": "Trusted: BED/TSV parsers, independent CIGAR walk for annotation-free inputs; the allowed-site set is a superset of what a legitimate correction can produce.",
   "technique": "offline checker over corrected alignments vs input alignments, reported events and annotation",
  },
+ "C08": {
+  "text": "The real MultimapResolver.resolve is driven in-process on generated lists of 2-6 alignment records per read (all assignment types, primary/secondary, equal coordinates on different chromosomes, exact duplicates with permuted isoform lists) under a priority-model post-condition and under every permutation of the list (all for <=5 records, 40 sampled for 6): the retained set must be permutation-invariant; the same model judges every resolution logged by the resolve monitor inside CLI runs; paralog worlds are run with different chromosome processing orders (padded lengths) and memory modes and the retained records per read are compared, losers must be absent from the BED. Lists and worlds are sampled.",
+  "note": "Trusted: priority model in vlib/oracles/multimap.py (states only what the property states: nothing about penalties or which inconsistent/uninformative alignment is chosen). The 'counted once' clause is decided by C02 (recorded known finding for ties).",
+  "technique": "runtime contract (reference-model post-condition) on the real resolver under permutation workloads + hooked resolution log in pipeline runs + differential runs",
+ },
 }
 NOT_APPLICABLE = {}
